@@ -36,9 +36,27 @@ def enum_members(cls):
     return list(cls)
 
 
+_SUBCLASSES = {}
+
+
+def user_class(g, rng, cov, base):
+    """the API class, or -- one time in four -- a user-defined subclass of it (class MyCodeBlock(gtirb.CodeBlock): pass): a node of a
+    subclass is a node of that kind wherever the base class is accepted, written and compared"""
+    if rng.random() < 0.75:
+        return base
+    cov.hit("user-subclass:" + base.__name__)
+    key = (id(g), base.__name__)
+    if key not in _SUBCLASSES:
+        _SUBCLASSES[key] = type("My" + base.__name__, (base,), {})
+    return _SUBCLASSES[key]
+
+
 def gen_ir(g, rng, cov, n_modules=None, entry_later=False, with_aux=True):
     """returns (ir, auxinfo) ; auxinfo: list of (container, key, type tree, value)"""
     uuids = set()
+
+    def C(base):
+        return user_class(g, rng, cov, base)
 
     def uu():
         while True:
@@ -61,20 +79,20 @@ def gen_ir(g, rng, cov, n_modules=None, entry_later=False, with_aux=True):
         order_ir_first = rng.random() < 0.5
         if order_ir_first:
             kw["ir"] = ir
-        m = g.Module(**kw)
+        m = C(g.Module)(**kw)
         # proxies
         proxies = []
         for _ in range(rng.choice([0, 0, 1, 2])):
             if rng.random() < 0.5:
-                p = g.ProxyBlock(uuid=uu(), module=m)
+                p = C(g.ProxyBlock)(uuid=uu(), module=m)
             else:
-                p = g.ProxyBlock(uuid=uu())
+                p = C(g.ProxyBlock)(uuid=uu())
                 m.proxies.add(p)
             proxies.append(p)
         code, data = [], []
         for _ in range(rng.choice([0, 1, 1, 2, 3])):
             flags = set(rng.sample(enum_members(g.Section.Flag), rng.choice([0, 1, 2, 7])))
-            s = g.Section(name=rng.choice(NAMES), flags=flags, uuid=uu())
+            s = C(g.Section)(name=rng.choice(NAMES), flags=flags, uuid=uu())
             if rng.random() < 0.5:
                 s.module = m
             else:
@@ -87,19 +105,19 @@ def gen_ir(g, rng, cov, n_modules=None, entry_later=False, with_aux=True):
                 size = rng.choice([nbytes, nbytes, nbytes + 5, U64, nbytes + 1])
                 cov.hit("size-" + ("eq-bytes" if size == nbytes else ("max" if size == U64 else "gt-bytes")))
                 try:
-                    bi = g.ByteInterval(address=addr, size=size, contents=contents, uuid=uu())
+                    bi = C(g.ByteInterval)(address=addr, size=size, contents=contents, uuid=uu())
                 except Exception:  # noqa: BLE001  (the constructor refusing a declared size is not what the users of this generator judge:
                     cov.hit("ctor-refused-size")     # go on with a size it accepts, so that the IR is still built, saved and compared)
                     size = nbytes + 1
-                    bi = g.ByteInterval(address=addr, size=size, contents=contents, uuid=uu())
+                    bi = C(g.ByteInterval)(address=addr, size=size, contents=contents, uuid=uu())
                 blocks = []
                 for _ in range(rng.choice([0, 1, 2, 3])):
                     off, sz = rng.choice([0, 0, 1, 4, U64, bnd_u64(rng)]), rng.choice([0, 1, 4, U64, 16])
                     if rng.random() < 0.55:
-                        b = g.CodeBlock(size=sz, offset=off, decode_mode=rng.choice(enum_members(g.CodeBlock.DecodeMode)), uuid=uu())
+                        b = C(g.CodeBlock)(size=sz, offset=off, decode_mode=rng.choice(enum_members(g.CodeBlock.DecodeMode)), uuid=uu())
                         code.append(b)
                     else:
-                        b = g.DataBlock(size=sz, offset=off, uuid=uu())
+                        b = C(g.DataBlock)(size=sz, offset=off, uuid=uu())
                         data.append(b)
                     blocks.append(b)
                     if off == U64 or sz == U64:
@@ -136,7 +154,7 @@ def gen_ir(g, rng, cov, n_modules=None, entry_later=False, with_aux=True):
             else:
                 pay = None
                 cov.hit("payload-none")
-            y = g.Symbol(rng.choice(NAMES), uuid=uu(), payload=pay, at_end=rng.random() < 0.3)
+            y = C(g.Symbol)(rng.choice(NAMES), uuid=uu(), payload=pay, at_end=rng.random() < 0.3)
             if rng.random() < 0.5:
                 y.module = m
             else:
@@ -158,9 +176,9 @@ def gen_ir(g, rng, cov, n_modules=None, entry_later=False, with_aux=True):
                             cov.hit("attribute-known")
                             cov._last_attrs = set(attrs)
                         if rng.random() < 0.6:
-                            e = g.SymAddrConst(bnd_i64(rng), rng.choice(syms), attrs)
+                            e = C(g.SymAddrConst)(bnd_i64(rng), rng.choice(syms), attrs)
                         else:
-                            e = g.SymAddrAddr(bnd_i64(rng), bnd_i64(rng), rng.choice(syms), rng.choice(syms), attrs)
+                            e = C(g.SymAddrAddr)(bnd_i64(rng), bnd_i64(rng), rng.choice(syms), rng.choice(syms), attrs)
                         bi.symbolic_expressions[rng.choice([0, 1, 2, 8, U64, bnd_u64(rng)])] = e
         # entry point: own module or an earlier one (a later one is the recorded finding D7, only on request)
         if all_code and rng.random() < 0.6:
